@@ -503,7 +503,7 @@ VK(tables_env_publish) {
 #if ADA_INCLUDE_URL_PATTERN
 static const char* const vk_proto_names[6] = {"http", "https", "ws", "ftp", "sc", "https:"};
 static inline std::string_view vk_proto(uint64_t k) { return k < 6 ? std::string_view(vk_proto_names[k]) : std::string_view(); }
-// p0: 0 protocol, 1 username, 2 password, 3 port, 4 search, 5 hash, 6 port_with_protocol(p1), 7 ipv6_hostname
+// p0: 0 protocol, 1 username, 2 password, 3 port, 4 search, 5 hash, 6 port_with_protocol(p1), 7 ipv6_hostname, 8 hostname
 // returns ok | len<<8 ; out = canonical text
 VK(canon) {
   UNUSED;
@@ -517,6 +517,7 @@ VK(canon) {
     case 4: r = h::canonicalize_search(SV); break;
     case 5: r = h::canonicalize_hash(SV); break;
     case 6: r = h::canonicalize_port_with_protocol(SV, vk_proto(p1)); break;
+    case 8: r = h::canonicalize_hostname(SV); break;
     default: r = h::canonicalize_ipv6_hostname(SV); break;
   }
   if (!r) return 0;
